@@ -44,51 +44,76 @@ def drv(name, fam, src, gen, nd=(1, 0, 2), dt=NUM, exempt=None, func=None, valua
 
 
 # ------------------------------------------------------------------ record files (binary + text)
-for tag, kw, val in (("bin", "", "binary"), ("txt", ", delim=','", "text delim=','"), ("tab", ", delim='\\t'", "text delim=tab"),
-                     ("spc", ", delim=' '", "text delim=' '")):
-    drv("sfile_write_" + tag, "recfile", "def f(data, fname: str):\n    sfile.write(fname, data%s)\n" % kw,
-        {"data": "rec"}, nd=(1,), dt=REC, func="sfile.write", valuation=val)
-drv("sfile_write_swapped_args", "recfile", "def f(data, fname: str):\n    sfile.write(data, fname, delim=',')\n",
-    {"data": "rec"}, nd=(1,), dt=REC, func="sfile.write", valuation="(data, filename) order, text")
+# GENERATED option matrix.  The C writer (records.cpp, covered dynamically + by the syntactic write-path scan) reads the options
+# delim (binary / text), padnull, ignorenull, bracket_arrays and the open mode; every writer entry point is driven with every
+# combination, on the table kind "recio" whose data make each option matter (S fields with empty / short / full-width values and
+# embedded NULs, a sub-array S field, 1-d and 2-d numeric sub-arrays; native, swapped and mixed byte order; contiguous and strided).
+# A driver hands the array under test to exactly ONE call (earlier calls that only prepare the file get a copy): two text writes
+# of the same non-native table would swap it twice and so hide the as-found defect from the snapshot.
+RECIO = {"data": "recio"}
+NULL_OPTS = (("", ""), ("padnull=True", "padnull"), ("ignorenull=True", "ignorenull"), ("padnull=True, ignorenull=True", "padnull+ignorenull"),
+             ("padnull=True, ignorenull=False", "padnull, ignorenull=False"))
+DELIMS = ((",", "comma"), (" ", "space"), ("\\t", "tab"), (":", "colon"))
+
+
+def _kw(*parts):
+    return "".join(", " + x for x in parts if x)
+
+
+def _tag(*parts):
+    return "_".join(x.replace("+", "_").replace(", ", "_").replace("=", "").replace(" ", "") for x in parts if x)
+
+
+WRITERS = (
+    # (name, function label, source template with %(kw)s = keyword text, supports bracket_arrays, all delimiters?)
+    ("sfile_write", "sfile.write", "def f(data, fname: str):\n    sfile.write(fname, data%(kw)s)\n", False, True),
+    ("SFile_write", "SFile.write", "def f(data, fname: str):\n    with SFile(fname, 'w'%(kw)s) as sf:\n        sf.write(data)\n", False, False),
+    ("recfile_write", "recfile.write", "def f(data, fname: str):\n    recfile.write(fname, data%(kw)s)\n", True, False),
+    ("Recfile_write", "Recfile.write", "def f(data, fname: str):\n    with Recfile(fname, 'w'%(kw)s) as r:\n        r.write(data)\n", True, True),
+    ("io_write_rec", "io.write", "def f(data, fname: str):\n    io.write(fname, data, type='rec'%(kw)s)\n", False, False),
+)
+for wname, wfunc, tmpl, has_bracket, all_delims in WRITERS:
+    drv(wname + "_bin", "recfile", tmpl % {"kw": ""}, RECIO, nd=(1,), dt=REC, func=wfunc, valuation="binary", n=6)
+    for dl, dtag in (DELIMS if all_delims else DELIMS[:2]):
+        for nkw, ntag in NULL_OPTS:
+            if ntag == "padnull, ignorenull=False" and dtag != "comma":
+                continue
+            drv(_tag(wname, "txt", dtag, ntag), "recfile", tmpl % {"kw": _kw("delim='%s'" % dl, nkw)}, RECIO, nd=(1,), dt=REC, func=wfunc,
+                valuation="text delim=%s%s" % (dtag, (", " + ntag) if ntag else ""), n=6)
+    if has_bracket:
+        for dl, dtag in DELIMS[:2]:
+            for nkw, ntag in NULL_OPTS[:4]:
+                drv(_tag(wname, "bracket", dtag, ntag), "recfile", tmpl % {"kw": _kw("delim='%s'" % dl, "bracket_arrays=True", nkw)}, RECIO,
+                    nd=(1,), dt=REC, func=wfunc, valuation="text delim=%s, bracket_arrays=True%s" % (dtag, (", " + ntag) if ntag else ""), n=6)
+drv("sfile_write_swapped_args", "recfile", "def f(data, fname: str):\n    sfile.write(data, fname, delim=',', padnull=True)\n",
+    RECIO, nd=(1,), dt=REC, func="sfile.write", valuation="(data, filename) order, text, padnull", n=6)
 drv("sfile_write_header_txt", "recfile", "def f(data, fname: str):\n    sfile.write(fname, data, delim=',', header={'a': 1, 'b': 'x'})\n",
-    {"data": "rec"}, nd=(1,), dt=REC, func="sfile.write", valuation="text, header=")
-drv("sfile_write_padnull", "recfile", "def f(data, fname: str):\n    sfile.write(fname, data, delim=',', padnull=True, ignorenull=False)\n",
-    {"data": "rec"}, nd=(1,), dt=REC, func="sfile.write", valuation="text, padnull=True")
-# a driver hands the array under test to exactly ONE call (earlier calls that only prepare the file get a copy): two
-# text writes of the same non-native table would swap it twice and so hide the as-found defect from the snapshot
-drv("sfile_write_append_bin", "recfile",
-    "def f(data, fname: str):\n    sfile.write(fname, data.copy())\n    sfile.write(fname, data, append=True)\n",
-    {"data": "rec"}, nd=(1,), dt=REC, func="sfile.write", valuation="binary, append=True after a first write")
-drv("sfile_write_append_txt", "recfile",
-    "def f(data, fname: str):\n    sfile.write(fname, data.copy(), delim=',')\n    sfile.write(fname, data, delim=',', append=True)\n",
-    {"data": "rec"}, nd=(1,), dt=REC, func="sfile.write", valuation="text, append=True after a first write")
-for tag, kw, val in (("bin", "", "binary"), ("txt", ", delim=','", "text")):
-    drv("SFile_write_" + tag, "recfile",
+    RECIO, nd=(1,), dt=REC, func="sfile.write", valuation="text, header=", n=6)
+# second write into an open file, append, r+ (the file is prepared with a COPY of the table)
+for tag, kw, val in (("bin", "", "binary"), ("txt", ", delim=','", "text"), ("txt_padnull", ", delim=',', padnull=True", "text, padnull"),
+                     ("txt_ignorenull", ", delim=' ', ignorenull=True", "text delim=space, ignorenull")):
+    drv("sfile_write_append_" + tag, "recfile",
+        "def f(data, fname: str):\n    sfile.write(fname, data.copy()%s)\n    sfile.write(fname, data%s, append=True)\n" % (kw, kw),
+        RECIO, nd=(1,), dt=REC, func="sfile.write", valuation=val + ", append=True after a first write", n=6)
+    drv("SFile_write_second_" + tag, "recfile",
         "def f(data, fname: str):\n    with SFile(fname, 'w'%s) as sf:\n        sf.write(data.copy())\n        sf.write(data)\n" % kw,
-        {"data": "rec"}, nd=(1,), dt=REC, func="SFile.write", valuation=val + ", second write into an open file")
-    drv("SFile_write_first_" + tag, "recfile",
-        "def f(data, fname: str):\n    with SFile(fname, 'w'%s) as sf:\n        sf.write(data)\n" % kw,
-        {"data": "rec"}, nd=(1,), dt=REC, func="SFile.write", valuation=val + ", first write")
+        RECIO, nd=(1,), dt=REC, func="SFile.write", valuation=val + ", second write into an open file", n=6)
     drv("SFile_write_header_" + tag, "recfile",
         "def f(data, fname: str):\n    sf = SFile(fname, 'w'%s)\n    sf.write(data, header={'k': [1, 2]})\n    sf.close()\n" % kw,
-        {"data": "rec"}, nd=(1,), dt=REC, func="SFile.write", valuation=val + ", mode w, header=")
+        RECIO, nd=(1,), dt=REC, func="SFile.write", valuation=val + ", mode w, header=", n=6)
     drv("SFile_write_rplus_" + tag, "recfile",
-        "def f(data, fname: str):\n    sfile.write(fname, data.copy()%s)\n    sf = SFile(fname, 'r+')\n    sf.write(data)\n    sf.close()\n" % kw,
-        {"data": "rec"}, nd=(1,), dt=REC, func="SFile.write", valuation=val + ", mode r+ on an existing file")
-    drv("Recfile_write_" + tag, "recfile",
-        "def f(data, fname: str):\n    with Recfile(fname, 'w'%s) as r:\n        r.write(data)\n" % kw,
-        {"data": "rec"}, nd=(1,), dt=REC, func="Recfile.write", valuation=val)
-    drv("recfile_write_" + tag, "recfile", "def f(data, fname: str):\n    recfile.write(fname, data%s)\n" % kw,
-        {"data": "rec"}, nd=(1,), dt=REC, func="recfile.write", valuation=val)
-    drv("io_write_rec_" + tag, "recfile", "def f(data, fname: str):\n    io.write(fname, data, type='rec'%s)\n" % kw,
-        {"data": "rec"}, nd=(1,), dt=REC, func="io.write", valuation="type='rec', " + val)
-drv("Recfile_write_bracket", "recfile",
-    "def f(data, fname: str):\n    r = Recfile(fname, 'w', delim=' ', bracket_arrays=True)\n    r.write(data)\n    r.close()\n",
-    {"data": "rec"}, nd=(1,), dt=REC, func="Recfile.write", valuation="text, bracket_arrays=True")
-drv("Recfile_write_rplus", "recfile",
-    "def f(data, fname: str):\n    recfile.write(fname, data.copy(), delim=',')\n"
-    "    r = Recfile(fname, 'r+', delim=',', dtype=data.dtype, nrows=data.size)\n    r.write(data)\n    r.close()\n",
-    {"data": "rec"}, nd=(1,), dt=REC, func="Recfile.write", valuation="text, mode='r+' on an existing file")
+        "def f(data, fname: str):\n    sfile.write(fname, data.copy()%s)\n    sf = SFile(fname, 'r+'%s)\n    sf.write(data)\n    sf.close()\n"
+        % (kw, kw.replace(", delim=','", "").replace(", delim=' '", "")),
+        RECIO, nd=(1,), dt=REC, func="SFile.write", valuation=val + ", mode r+ on an existing file", n=6)
+    if tag != "bin":
+        drv("Recfile_write_rplus_" + tag, "recfile",
+            "def f(data, fname: str):\n    recfile.write(fname, data.copy()%s)\n"
+            "    r = Recfile(fname, 'r+'%s, dtype=data.dtype, nrows=data.size)\n    r.write(data)\n    r.close()\n" % (kw, kw),
+            RECIO, nd=(1,), dt=REC, func="Recfile.write", valuation=val + ", mode='r+' on an existing file", n=6)
+        drv("recfile_write_rplus_" + tag, "recfile",
+            "def f(data, fname: str):\n    recfile.write(fname, data.copy()%s)\n"
+            "    recfile.write(fname, data, mode='r+'%s, dtype=data.dtype, nrows=data.size)\n" % (kw, kw),
+            RECIO, nd=(1,), dt=REC, func="recfile.write", valuation=val + ", mode='r+' on an existing file", n=6)
 
 # ------------------------------------------------------------------ field operations
 drv("extract_fields", "fields", "def f(arr):\n    return numpy_util.extract_fields(arr, ['x', 'id'])\n", {"arr": "rec"}, dt=REC, valuation="strict=True")
